@@ -116,3 +116,66 @@ def converter_reset_obligations(prop="C03"):
         r.detail = "the shared converter is not reset before this entity's comment is converted"
         r.replay = c03.search_project_render()
     return [r]
+
+
+def common_doc_sharing(prop="C03", replay=None):
+    """a COMMON statement that declares several blocks (`common /a/ x /b/ y`) is documented by one comment: FortranContainer.__init__ builds one FortranCommon per block (the
+    first one constructed reads the comment) and then gives every block the documentation of the *first block of this statement*.  The index expression that picks that block
+    is translated from the AST into integer arithmetic (Python's floor division) and proved equal to -n, n = len(split) // 2 the number of blocks, for every odd
+    len(split) >= 3 (COMMON_SPLIT_RE.split yields 2n + 1 pieces)."""
+    import ast
+    import z3
+    from harness import loader
+    from harness.core import OR, PROVED, REFUTED, UNKNOWN
+    oid = f"{prop}.A.FortranContainer.__init__.common_blocks_share_the_documentation_of_the_first_block"
+    fn = loader.find_def("ford.sourceform", "FortranContainer.__init__")
+    sites = [n for n in ast.walk(fn) if isinstance(n, ast.Assign) and len(n.targets) == 1 and ast.unparse(n.targets[0]).startswith("self.common[") and ast.unparse(n.targets[0]).endswith(".doc_list")
+             and ast.unparse(n.value).startswith("self.common[") and ast.unparse(n.value).endswith(".doc_list")]
+    if len(sites) != 1:
+        return [OR(id=oid, status=UNKNOWN, kind="A", target="ford.sourceform.FortranContainer.__init__", detail=f"documentation-sharing assignment: {len(sites)} matches")]
+    idx = sites[0].value.value.slice
+    L = z3.Int("len_split")
+    env = {}
+    for n in ast.walk(fn):
+        if isinstance(n, ast.Assign) and len(n.targets) == 1 and isinstance(n.targets[0], ast.Name) and "len(split)" in ast.unparse(n.value) and n.lineno < sites[0].lineno:
+            env[n.targets[0].id] = n.value
+
+    def tr(e):
+        if isinstance(e, ast.Constant) and isinstance(e.value, int):
+            return z3.IntVal(e.value)
+        if isinstance(e, ast.Call) and ast.unparse(e) == "len(split)":
+            return L
+        if isinstance(e, ast.Name) and e.id in env:
+            return tr(env[e.id])
+        if isinstance(e, ast.UnaryOp) and isinstance(e.op, ast.USub):
+            return -tr(e.operand)
+        if isinstance(e, ast.BinOp):
+            a, b = tr(e.left), tr(e.right)
+            if isinstance(e.op, ast.Add):
+                return a + b
+            if isinstance(e.op, ast.Sub):
+                return a - b
+            if isinstance(e.op, ast.Mult):
+                return a * b
+            if isinstance(e.op, ast.FloorDiv) and isinstance(e.right, ast.Constant) and e.right.value > 0:
+                return a / b            # z3 integer division rounds towards minus infinity for a positive divisor, like Python's //
+        raise ValueError(ast.unparse(e))
+    try:
+        t = tr(idx)
+    except ValueError as ex:
+        return [OR(id=oid, status=UNKNOWN, kind="A", target="ford.sourceform.FortranContainer.__init__", detail=f"index expression outside the translated subset: {ex}")]
+    s = z3.Solver()
+    s.set("timeout", 10000)
+    n = z3.Int("n")
+    s.add(L == 2 * n + 1, n >= 1, t != -n)
+    res = s.check()
+    ok = res == z3.unsat
+    r = OR(id=oid, status=PROVED if ok else (REFUTED if res == z3.sat else UNKNOWN), kind="A", role="post", backend="z3", target="ford.sourceform.FortranContainer.__init__",
+           desc=f"`self.common[{ast.unparse(idx)}]` is the first block of the statement: the index equals -(len(split) // 2) for every odd len(split) >= 3")
+    if res == z3.sat:
+        m = s.model()
+        r.witness = {"len(split)": m.eval(L, model_completion=True).as_long(), "index": m.eval(t, model_completion=True).as_long(), "expected": -m.eval(n, model_completion=True).as_long()}
+        r.detail = "the documentation of another block (an empty one) overwrites every block of the statement"
+        if replay:
+            r.replay = replay()
+    return [r]
